@@ -126,6 +126,8 @@ package epd
 //@
 //@ func (Chunker).Open
 //@   props C20
+//@   # every non-empty sub-range of the shuffled order can be opened: the range check rejects only others
+//@   at-return 1 requires [accepts] !(0 <= start && start < end && end <= len(c.lineManifest))
 //@   views named
 //@   allow-extern os. errors. slices.
 //@   at-call SortFunc requires [collected] len(chunkLines) == end - start && implies(0 <= gi && gi < end - start, chunkLines[gi] == c.lineManifest[si(uint64(start + gi), uint64(len(c.lineManifest)), uint64(epoch))])
